@@ -59,10 +59,16 @@ fn build_config(c: &Value) -> BuildConfig {
     if c["expected"].as_str() == Some("failure") {
         b.expected_pack_result(PackResult::Failure);
     }
-    if c["preprocessor"].as_bool() == Some(true) {
+    // preprocessor: true / "A" (adds a file, rewrites file.txt) or "B" (another, distinguishable one)
+    if c["preprocessor"].as_bool() == Some(true) || c["preprocessor"].as_str() == Some("A") {
         b.app_dir_preprocessor(|dir: PathBuf| {
             std::fs::write(dir.join("added-by-preprocessor"), "x").unwrap();
             std::fs::write(dir.join("file.txt"), "changed").unwrap();
+        });
+    } else if c["preprocessor"].as_str() == Some("B") {
+        b.app_dir_preprocessor(|dir: PathBuf| {
+            std::fs::write(dir.join("added-by-B"), "y").unwrap();
+            std::fs::write(dir.join("file.txt"), "changed-by-B").unwrap();
         });
     }
     b
